@@ -172,9 +172,15 @@ def check_call(fq, args, kwargs=None, contract=None, fn=None):
     ba.apply_defaults()
     env = dict(ba.arguments)
     ptypes = c.get("params") or {}
-    for p, t in ptypes.items():
-        if p in env and not type_ok(env[p], t):
-            return {"status": "skip", "why": "argument %s not of type %s" % (p, t)}
+    bad = [(p, t) for p, t in ptypes.items() if p in env and not type_ok(env[p], t)]
+    if bad and c.get("variants"):
+        for var in c["variants"]:
+            vt = var.get("params") or {}
+            if all(p not in env or type_ok(env[p], t) for p, t in vt.items()):
+                bad = []
+                break
+    for p, t in bad:
+        return {"status": "skip", "why": "argument %s not of type %s" % (p, t)}
     try:
         for nm, pre in named(c.get("requires"), "pre"):
             if not ev(pre, env):
